@@ -44,7 +44,9 @@ def main():
     for _ in range(150 if quick else 2500):
         units.append(rand_spec())
     MAGS = [["int", "3", "1"], ["int", "-12", "1"], ["int", "0", "1"], ["float", "5", "2"], ["float", "-1", "8"], ["float", "6020000", "1"], ["dec", "5", "4"], ["dec", "-7", "1000"],
-            ["dec", "0", "1"], ["int", "100000000000000000000000", "1"], ["float", "1", "1267650600228229401496703205376"]]
+            ["dec", "0", "1"], ["int", "100000000000000000000000", "1"], ["float", "1", "1267650600228229401496703205376"],
+            # floats that need all 17 significant digits to be written down: 0.1 + 0.2, 1/3, 2/3, pi
+            ["float", "1351079888211149", "4503599627370496"], ["float", "6004799503160661", "18014398509481984"], ["float", "6004799503160661", "9007199254740992"], ["float", "884279719003555", "281474976710656"]]
     for _ in range(250 if quick else 4000):
         quantities.append({"m": rng.choice(MAGS), "u": rand_spec() if rng.random() < 0.7 else [[rng.choice([None] + prefixes), rng.choice(names), 1]]})
     # numerically equal magnitudes of different types, one after the other in one process: each keeps its own type and text
